@@ -1016,24 +1016,23 @@ fn oracle(cx: &OracleCtx, req: &Req, res: &Result<Vec<u8>, String>, st: &mut Sta
                             Some(g) if !(ng == 0 && *g == 0 && !notdef_kept) => go.data(*g),
                             _ => &[],
                         };
-                        if gs.data(ng) != expect {
+                        // short format: odd-length data is followed by exactly one zero pad byte
+                        let got = gs.data(ng);
+                        let same = if gs.flags & 1 == 0 && expect.len() % 2 == 1 {
+                            got.len() == expect.len() + 1 && &got[..expect.len()] == expect && got[expect.len()] == 0
+                        } else {
+                            got == expect
+                        };
+                        if !same {
                             why = Some(json!({"why": "variation data of a kept glyph is not the original's", "new": ng, "orig": kept_new.get(&ng), "subset_len": gs.data(ng).len(), "orig_len": expect.len(), "flags": gs.flags}));
                             break;
                         }
                     }
                 }
                 if let Some(w) = why {
-                    // diagnosed classes: the format decision sums the data of the NEW glyph ids of the original, and the
-                    // short format is written without padding odd-length data
-                    let kept_lens: Vec<usize> = spec_v.iter().filter(|g| !(**g == 0 && !notdef_kept)).map(|g| go.data(*g).len()).collect();
-                    let actual: usize = kept_lens.iter().sum();
-                    let class = if gs.flags & 1 == 0 && actual > 0x1FFFE {
-                        Some("C17:gvar-format-decision-uses-new-gids")
-                    } else if gs.flags & 1 == 0 && kept_lens.iter().any(|l| l % 2 == 1) {
-                        Some("C17:gvar-short-offsets-odd-length-data")
-                    } else {
-                        None
-                    };
+                    // (findings C17:gvar-format-decision-uses-new-gids and C17:gvar-short-offsets-odd-length-data were
+                    // repaired in /repo 88e7b85 / 8b3457d: any failure here is unknown again)
+                    let class: Option<&'static str> = None;
                     report(st, class, "gvar of the subset does not preserve the kept glyphs' variation data", w);
                     return;
                 }
